@@ -179,7 +179,7 @@ func ruleR29_2(c *Check) {
 	r.DomAll(pd, "flushing stopped after queued requests were applied", sf, 0, wr, 0)
 	// the drain loop receives from writeCh until empty
 	wc := w.Field("badger.DB.writeCh")
-	r.Exists(len(pd.Sites(selRecv(wc))) == 1, pd, "queued requests drained from writeCh", nil, "prepareToDrop no longer drains writeCh")
+	r.Exists(len(pd.Sites(selRecv(wc))) >= 1, pd, "queued requests drained from writeCh", nil, "prepareToDrop no longer drains writeCh")
 	da := w.F("badger.DB.dropAll")
 	decr := selCallName(w, "badger.memTable.DecrRef")
 	dt := selCallName(w, "badger.levelsController.dropTree")
@@ -195,7 +195,7 @@ func ruleR29_2(c *Check) {
 	dpx := selCallName(w, "badger.levelsController.dropPrefixes")
 	hf := selCallName(w, "badger.DB.handleMemTableFlush")
 	n := r.DomAll(dp, "prefixes dropped from the levels after the memtable loop", dpx, 0, selStore(w.Field("badger.DB.imm")), 0)
-	r.Exists(n == 1, dp, "dropPrefixes call", nil, "DropPrefix no longer calls lc.dropPrefixes")
+	r.Exists(n >= 1, dp, "dropPrefixes call", nil, "DropPrefix no longer calls lc.dropPrefixes")
 	r.DomAll(dp, "compactions stopped before prefixes are dropped", dpx, 0, selCallName(w, "badger.DB.stopCompactions"), 0)
 	// memtable loop: ranges over db.imm after appending db.mt
 	okLoop := false
@@ -327,7 +327,7 @@ func ruleR29_3(c *Check) {
 		s, ok := unparen(call.Fun).(*ast.SelectorExpr)
 		return ok && s.Sel.Name == "CompareAndSwap" && w.fieldOf(s.X) == flag
 	})
-	r.Exists(len(bw.Sites(cas)) == 1, bw, "block taken by compare-and-swap", nil, "blockWrite no longer uses CompareAndSwap on blockWrites")
+	r.Exists(len(bw.Sites(cas)) >= 1, bw, "block taken by compare-and-swap", nil, "blockWrite no longer uses CompareAndSwap on blockWrites")
 	r.ExitsNeed(bw, "wait for the write loop", selPred("writes.SignalAndWait", func(w *World, fn *Fn, n ast.Node) bool {
 		call, ok := n.(*ast.CallExpr)
 		if !ok {
